@@ -216,6 +216,7 @@ void Thread :: SignalOwner()
 
 void Thread :: SignalAux(int whichSocket)
 {
+   MUSCLE_VERIF_EVENT("Signal", this, whichSocket, _useMessagingSockets ? (((_messageSocketsAllocated)&&(_threadData[whichSocket]._messageSocket.GetFileDescriptor() >= 0)) ? 1 : 0) : 1, 0, 0);
    if (_useMessagingSockets)
    {
       if (_messageSocketsAllocated)
@@ -459,6 +460,7 @@ void Thread::InternalThreadEntryAux()
       // This could happen e.g. if a subclass decided to call SendMessageToOwner() in advance.
       ThreadSpecificData & ownerTSD = _threadData[MESSAGE_THREAD_OWNER];
       DECLARE_MUTEXGUARD(ownerTSD._queueLock);
+      MUSCLE_VERIF_EVENT("EntryCheck", this, ownerTSD._messages.HasItems() ? 1 : 0, 0, 0, 0);
       if (ownerTSD._messages.HasItems()) SignalOwner();
    }
 
